@@ -58,6 +58,12 @@ def cases(seed, tier, broken=()):
         n, p = int(rng.integers(20, 60)), int(rng.integers(8, 30))
         out.append({"kind": "solvers", "n": n, "p": p, "mseed": int(rng.integers(0, 2**31)), "k": int(rng.integers(1, 5)),
                     "cplx": bool(i % 5 == 4), "rs": int(rng.integers(0, 1000)), "scale": float(10.0 ** rng.integers(-4, 5))})
+    # --- the exact solver on TALL matrices whose spectrum spans ten decades: "full" means every requested singular value right relative
+    # to itself and orthonormal factors (a solver working on the Gram matrix squares the condition number)
+    for i in range({"quick": 4, "thorough": 40, "search": 16}[tier]):
+        p = int(rng.integers(4, 9))
+        out.append({"kind": "tall_exact", "n": int(p * rng.integers(12, 40)), "p": p, "mseed": int(rng.integers(0, 2**31)), "cplx": bool(i % 4 == 3),
+                    "decades": float([10.0, 9.0, 11.0, 8.5][i % 4]), "entry": ["Decomposer", "EOF"][i % 2], "solver": ["full", "auto"][(i // 2) % 2]})
     # --- seeds: bit identity
     for i in range({"quick": 8, "thorough": 80, "search": 20}[tier]):
         out.append({"kind": "seed", "backend": ["numpy", "complex", "dask"][i % 3], "n": int(rng.integers(20, 50)), "p": int(rng.integers(6, 20)),
@@ -181,6 +187,45 @@ def _gap_ok(X, k):
     if k >= s.size:
         return True
     return s[k] < 0.5 * s[k - 1] or s[k] <= 1e-9 * s[0]
+
+
+def run_tall_exact(case):
+    from xeofs.linalg.decomposer import Decomposer
+
+    F = []
+    rng = np.random.default_rng(case["mseed"])
+    n, p, cplx = case["n"], case["p"], case["cplx"]
+    U = np.linalg.qr(rng.normal(size=(n, p)) + (1j * rng.normal(size=(n, p)) if cplx else 0))[0]
+    V = np.linalg.qr(rng.normal(size=(p, p)) + (1j * rng.normal(size=(p, p)) if cplx else 0))[0]
+    s = np.logspace(0, -case["decades"], p)
+    X = (U * s) @ V.conj().T
+    Xd = da2d(X, "t", "x")
+    cc = f"tall|{case['entry']}|{case['solver']}" + ("|complex" if cplx else "")
+    # all p modes requested: solver="auto" then resolves to the exact solver as well (n_modes > 0.8 rank)
+    if case["entry"] == "Decomposer":
+        d = Decomposer(n_modes=p, solver=case["solver"], flip_signs=True)
+        d.fit(Xd, dims=("t", "x"))
+        sv = np.asarray(d.s_.values)
+        Uo = np.asarray(d.U_.transpose("t", "mode").values)
+        Vo = np.asarray(d.V_.transpose("x", "mode").values)
+    else:
+        cls = xe.single.ComplexEOF if cplx else xe.single.EOF
+        m = cls(n_modes=p, center=False, solver=case["solver"]).fit(Xd, "t")
+        sv = np.asarray(m.singular_values().values)
+        Uo = np.asarray(m.scores(normalized=True).transpose("t", "mode").values)
+        Vo = np.asarray(m.components().transpose("x", "mode").values)
+    ref = np.linalg.svd(X, compute_uv=False)
+    rel = np.abs(sv - ref) / ref
+    # LAPACK's own accuracy: absolute error ~ eps * s_1, i.e. relative error eps * s_1 / s_j for the small ones
+    ok = rel <= 1e-9 + 50 * 2.3e-16 * ref[0] / ref
+    if not ok.all():
+        j = int(np.argmin(ok))
+        F.append(Finding("oracle", "exact_solver_values", cc, f"exact solver: singular value {j+1} = {sv[j]:.6e}, LAPACK's SVD gives {ref[j]:.6e} (rel {rel[j]:.1e}; spectrum spans {case['decades']} decades, {n}x{p})"))
+    eu = np.abs(Uo.conj().T @ Uo - np.eye(p)).max()
+    ev = np.abs(Vo.conj().T @ Vo - np.eye(p)).max()
+    if eu > 1e-6 or ev > 1e-6:
+        F.append(Finding("oracle", "exact_solver_values", cc + "|orthonormal", f"exact solver: |U^H U - 1| = {eu:.1e}, |V^H V - 1| = {ev:.1e} on a tall matrix whose spectrum spans {case['decades']} decades"))
+    return {"findings": F, "info": {"oracle_checks": {"tall": 2}, "dist": {"kind": "tall_exact", "entry": case["entry"], "solver": case["solver"]}}}
 
 
 def run_solvers(case):
@@ -443,4 +488,4 @@ def run_kwargs(case):
 
 
 def run(case):
-    return {"threshold": run_threshold, "solvers": run_solvers, "seed": run_seed, "seedcls": run_seedcls, "sign": run_sign, "kwargs": run_kwargs}[case["kind"]](case)
+    return {"threshold": run_threshold, "tall_exact": run_tall_exact, "solvers": run_solvers, "seed": run_seed, "seedcls": run_seedcls, "sign": run_sign, "kwargs": run_kwargs}[case["kind"]](case)
